@@ -1,21 +1,46 @@
-import sys, os, argparse, importlib
+import sys, os, re, argparse, importlib, traceback
 from . import common
 
 
 def main():
     ap = argparse.ArgumentParser()
     ap.add_argument('pid')
-    ap.add_argument('--tier', default=os.environ.get('VERIF_TIER', 'quick'), choices=['quick', 'thorough'])
-    ap.add_argument('--seed', type=int, default=int(os.environ.get('VERIF_SEED', '0') or 0))
+    ap.add_argument('--tier', default=None, choices=['quick', 'thorough'])
+    ap.add_argument('--seed', type=int, default=None)
     ap.add_argument('--replay', default=None)
     a = ap.parse_args()
+    # exit 2 = the check itself could not run (bad arguments, internal error); exit 1 is reserved for a VIOLATION line
+    tier = a.tier or os.environ.get('VERIF_TIER') or 'quick'
+    if tier not in ('quick', 'thorough'):
+        print(f'invalid tier {tier!r} (VERIF_TIER): quick or thorough', file=sys.stderr)
+        sys.exit(2)
+    try:
+        seed = a.seed if a.seed is not None else int(os.environ.get('VERIF_SEED') or 0)
+    except ValueError:
+        print(f'invalid VERIF_SEED {os.environ.get("VERIF_SEED")!r}: a non-negative integer is required', file=sys.stderr)
+        sys.exit(2)
+    if seed < 0:
+        print('seed must be non-negative', file=sys.stderr)
+        sys.exit(2)
     pid = a.pid.upper()
+    if not re.fullmatch(r'C\d\d', pid):
+        print(f'no check for {a.pid!r}: property ids are C01 … C20', file=sys.stderr)
+        sys.exit(2)
     try:
         mod = importlib.import_module('harness.' + pid.lower())
     except ModuleNotFoundError as e:
         print(f'no check for {pid}: {e}', file=sys.stderr)
         sys.exit(2)
-    sys.exit(common.run_check(pid, mod, a.tier, a.seed, a.replay))
+    seed_given = a.seed is not None or bool(os.environ.get('VERIF_SEED'))
+    tier_given = a.tier is not None or bool(os.environ.get('VERIF_TIER'))
+    try:
+        rc = common.run_check(pid, mod, tier, seed, a.replay, seed_given=seed_given, tier_given=tier_given)
+    except SystemExit:
+        raise
+    except BaseException:
+        traceback.print_exc()
+        rc = 2
+    sys.exit(rc)
 
 
 if __name__ == '__main__':
